@@ -528,7 +528,10 @@ def check(prop, tier, seed, replay=None):
 
     # -- race detector stage (concurrency properties) ------------------------------
     race_info = None
-    if cfg.get("race") and corr_built and not replay:
+    if cfg.get("race") and corr_built and not replay and (fails_spec or fails_model):
+        # a failing input is already at hand: the (slow) race-detector run would add nothing to the verdict
+        race_info = {"skipped": "a failing input was already found by the main stage"}
+    elif cfg.get("race") and corr_built and not replay:
         rc_cfg = cfg["race"]
         race_bin = os.path.join(BUILD, "harness-race")
         renv = goenv()
